@@ -5,9 +5,9 @@
                    lastseen = now), `int(lifetime)`, and the ways a garbled record makes it raise;
   * `decide`     = `process_peering_event` as a function of (status content, own identity/priority,
                    toggle state, clock): who is dead (`lastseen + lifetime ≤ now`), which dead peers
-                   are cleaned (own dead record included), the toggle, the delays to the deadlines of
+                   are cleaned (never the own record), the toggle, the delays to the deadlines of
                    the blocking peers, the sleep, the self-touch;
-  * `kaSleep`    = the keep-alive period `max(1, min(L, max(1, L − randint(5,10))))`;
+  * `kaSleep(T)` = the keep-alive period `max(1, min(L, max(1, L − randint(5,10))))`, `L/2` for `L = 1`;
   * `touchVal`   = what `touch()` writes (`None` when the record would be dead at once: lifetime ≤ 0);
   * `step`       = the shared peering object + operators as a labelled transition system. `deliver i` hands
                    operator i the CURRENT status at the current time (no stale views, clean+toggle atomic): what
@@ -142,7 +142,9 @@ structure Decision where
 
 def livePeers (u : Int) (now : Int) (me : Identity) (ps : List Peer) : List Peer :=
   ps.filter (fun p => !p.isDead u now && p.id != me)
-def deadPeers (u : Int) (now : Int) (ps : List Peer) : List Peer := ps.filter (fun p => p.isDead u now)
+/-- `[peer for peer in peers if peer.is_dead and peer.identity != identity]`: the own expired record is never cleaned -/
+def deadPeers (u : Int) (now : Int) (me : Identity) (ps : List Peer) : List Peer :=
+  ps.filter (fun p => p.isDead u now && p.id != me)
 def prioPeers (myPrio : Int) (live : List Peer) : List Peer :=
   live.filter (fun p => match p.prio with | some q => decide (q > myPrio) | none => false)
 def samePeers (myPrio : Int) (live : List Peer) : List Peer :=
@@ -156,7 +158,7 @@ def minList : List Int → Option Int
     built, `now₂` the clock after `clean()` and the toggle (they differ by the API latency of `clean`). -/
 def decideCore (u : Int) (ps : List Peer) (me : Identity) (myPrio : Int) (autoclean : Bool)
     (toggle : Option Bool) (now now2 : Int) : Decision :=
-  let dead := deadPeers u now ps
+  let dead := deadPeers u now me ps
   let live := livePeers u now me ps
   let prio := prioPeers myPrio live
   let same := samePeers myPrio live
@@ -218,6 +220,11 @@ def processEvent (u : Int) (nameOk : Bool) (status : Option (List (Identity × R
 
 /-- `max(1, min(lifetime, max(1, lifetime - jitter)))` seconds; `jitter = random.randint(5, 10)`. -/
 def kaSleep (lifetime jitter : Int) : Int := max 1 (min lifetime (max 1 (lifetime - jitter)))
+
+/-- what `keepalive` really sleeps, in ticks: the line above for `lifetime > 1`; half the lifetime (0.5 s) for a
+    lifetime of one second; one second when the lifetime is not positive (then no record is ever written). -/
+def kaSleepT (u lifetime jitter : Int) : Int :=
+  if lifetime > 1 then kaSleep lifetime jitter * u else if lifetime > 0 then lifetime * u / 2 else u
 
 structure Rec where
   priority : Int
@@ -306,7 +313,8 @@ def step (u : Int) (s : State) : Label → Option State
     match s.ops i with
     | some o => if o.alive then
         some { s with ver := s.ver + 1, status := s.status.patch i (touchVal u o.prio 0 s.now),
-                      ops := updOp s.ops i { o with alive := false } }
+                      -- `_wait_for_depletion` sets the stream pressure: the sleeping call returns without touching
+                      ops := updOp s.ops i { o with alive := false, sleeping := false } }
       else none
     | none => none
   | .kill i =>
@@ -319,7 +327,7 @@ def step (u : Int) (s : State) : Label → Option State
         let d := decideCore u s.status.peers i o.prio true (some o.paused) s.now s.now
         some { s with
           ver := if d.cleaned.isEmpty then s.ver else s.ver + 1
-          status := s.status.filter (fun e => !e.2.dead u s.now)
+          status := s.status.filter (fun e => !(e.2.dead u s.now && e.1 != i))
           -- a new event interrupts the previous sleep (no touch); this call sleeps iff somebody blocks it
           ops := updOp s.ops i { o with paused := d.paused.getD o.paused, seen := some (s.ver, s.now),
                                         sleeping := d.touch } }
@@ -329,8 +337,7 @@ def step (u : Int) (s : State) : Label → Option State
   | .expire j => some { s with now := latestDeadline u s.status j s.now }
   | .foreign j r => some { s with ver := s.ver + 1, status := s.status.patch j r }
   | .wake i =>
-    -- NB: not guarded by `alive`: a graceful exit (`exit i`) does not wake the sleeping call; it lives on
-    -- (in the code: for up to `settings.queueing.exit_timeout`) and touches when its deadline comes.
+    -- guarded by `sleeping` only: both ways out (`exit`, `kill`) end the sleeping call without a touch.
     match s.ops i with
     | some o => if o.sleeping then
         some { s with ver := s.ver + 1, status := s.status.patch i (touchVal u o.prio o.lifetime s.now),
